@@ -114,7 +114,7 @@ impl Brick {
         Brick {
             sequence: self.sequence.clone(),
             min: self.min + other.min,
-            max: self.max + other.max,
+            max: self.max.saturating_add(other.max),
         }
     }
 
